@@ -211,8 +211,21 @@ def showFeas0 (m : Cqm) (lenArg : Nat) : String :=
   let res := Feas.fromSamplesCqmTop lenArg 0 0 0 (fun _ _ => true) (Feas.evalObj m rows) (Feas.evalCons m rows)
   s!"Z {res.1.isSatisfied.length} {bit res.2}"
 
+/-- `feas0m <isMapping> <lenArg> <atol> <rtol>`: `from_samples_cqm` (repaired first branch) given ONE sample as a mapping / an argument
+    without rows, on a model whose expressions are evaluated at the all-zero row (for a model without variables: the constants) -/
+def showFeas0M (m : Cqm) (isMapping : Bool) (lenArg : Nat) (atol rtol : Rat) : String :=
+  let rows : Nat → Nat → Rat := fun _ _ => 0
+  let sh (g : Bool) :=
+    let res := Feas.fromSamplesCqmArg isMapping lenArg 1 atol rtol (fun _ _ => g) (Feas.evalObj m rows) (Feas.evalCons m rows)
+    if res.2 then s!"R {String.join (res.1.isSatisfied.map fun col => bit (col 0))}|{bit (res.1.isFeasible 0)}|{showRat (res.1.energies 0)}"
+    else s!"Z {res.1.isSatisfied.length} 0"
+  if sh true = sh false then sh true else "R garbage-dependent"
+
 def stepAll (m : Cqm) (line : String) : Cqm × String :=
   match line.trimAscii.toString.splitOn " " with
+  | ["feas0m", im, k, atol, rtol] => match k.toNat?, parseRat? atol, parseRat? rtol with
+    | some k, some atol, some rtol => (m, showFeas0M m (im = "1") k atol rtol)
+    | _, _, _ => (m, "bad-op")
   | ["exact", atol, rtol] => match parseRat? atol, parseRat? rtol with
     | some atol, some rtol => (m, showExact m atol rtol)
     | _, _ => (m, "bad-op")
